@@ -31,6 +31,13 @@ CHECKS = {
   "The large-offset variance clause is violated by the code (known finding C03-var-naive-offset, reported by a witness harness).",
   "Trusts Kani/CBMC; float arithmetic is only exercised on exactly representable lattice values (no accuracy claim for sums/products of arbitrary floats); exp/powf are replaced by recorder stubs (argument-level claim); shapes with a dimension > 4, rand and Display are outside.",
   "DESIGN.md 6/C03"),
+ "C16": (True,
+  "train_test_split (n <= 5 quick, 6 thorough; several test_size values per n; x any bit pattern) is proved for EVERY permutation the shuffle can produce (the RNG shuffle is replaced by an arbitrary symbolic permutation): sizes, "
+  "disjointness, union is a permutation of the rows, every target attached to its row, leading rows in order without shuffling; invalid test_size / length mismatch panic. KFold: the complete split iterator for k = 2 (n <= 5, "
+  "shuffled n <= 3 quick / 4 thorough) and the index/mask computation behind it for k = 3..4 (n <= 9; shuffled n <= 5): exactly k folds, test sets partition 0..n-1, balanced, consecutive blocks without shuffling, train = complement; k < 2 panics. "
+  "cross_validate / cross_val_predict are NOT covered (the harness exceeded 17-40 GB).",
+  "Trusts Kani/CBMC; thread_rng and SliceRandom::shuffle are stubbed (fake_thread_rng, any_perm = arbitrary permutation); KFold::split for k >= 3 does not finish (Vec<Vec<bool>>::reverse), so for k >= 3 only test_indices/test_masks (hook) are decided; larger n and cross-validation are outside the claim.",
+  "DESIGN.md 6/C16"),
  "C15": (True,
   "For every label/score vector of length <= 4 (5 thorough; AUC scores any finite f32 incl. ties, labels symbolic; regression targets on an integer or half-integer lattice) "
   "CBMC proves that the real accuracy, precision, recall, F-beta (beta in {1/2,1,2}), ROC-AUC, MSE, MAE and R^2 code returns exactly the value of the textbook definition "
